@@ -59,7 +59,7 @@ func layoutState(w *World) (broken bool, reason string) {
 	return false, ""
 }
 
-var c18Dirs = []string{"", "", "ca", "ca/sub", "x/y/z", "users"}
+var c18Dirs = []string{"", "", "ca", "ca/sub", "x/y/z", "users", ".staging", "ca/.old"}
 var c18Exts = []string{"yaml", "yaml", "yml", "json", "YAML", "Yml", "JSON", "yAmL", "jSoN"}
 
 func genC18(r *Rng, tier string) *Plan {
